@@ -79,9 +79,10 @@ def positive_under(r: Rat, positive_atoms) -> bool:
     r = scalar(r)
     if r.is_zero():
         return False
+    from .poly import mono_items
     for p in (r.num, r.den):
         for m in p:
-            for a, e in m:
+            for a, e in mono_items(m):
                 if a not in positive_atoms:
                     return False
     sn = {c > 0 for c in r.num.values()}
